@@ -773,3 +773,5 @@ def run(prog: Program, chk: Check) -> None:
     chk.call(t4, prog, chk)
     chk.call(t7, prog, chk)
     chk.call(t8, prog, chk)
+    from rules.c13 import restart_resets
+    chk.call(restart_resets, prog, chk, "T9")
